@@ -160,7 +160,7 @@ def gen(seed, i, tier, force=None):
             o["DampingTime"] = r.choice([1e-4, 1e-3])
         o["rotations"] = 1.0
     if cls == "startdist":
-        kinds = ["txt_ok", "txt_empty", "txt_malformed", "txt_outside", "h5_same", "h5_smaller", "h5_larger", "h5_rank2", "h5_rank5", "h5_zero_records",
+        kinds = ["txt_ok", "txt_empty", "txt_malformed", "txt_outside", "txt_cell_edges", "h5_same", "h5_smaller", "h5_larger", "h5_rank2", "h5_rank5", "h5_zero_records",
                  "h5_two_bunch", "h5_garbage", "h5_nonsquare", "unknown_ext", "missing_txt", "h5_three_bunch"]
         idx = i // 12 * 2 + (1 if i % 12 == 10 else 0)
         kind = kinds[idx % len(kinds)]              # every kind in every run, with one bunch current and (every third round) with several
@@ -221,6 +221,24 @@ def materialise(cls, o, wd, r, tool):
             elif k == "txt_malformed":
                 with open(os.path.join(wd, fn), "w") as fh:
                     fh.write("1 2\nx y\n3\n\n\n7 8 9\n")
+            elif k == "txt_cell_edges":
+                # coordinates that fall exactly on, or one ulp next to, the boundaries between cells in single precision - including
+                # half a cell outside the first and the last cell, where rounding to a cell index decides between "on the grid" and "off"
+                import struct
+                def f32(x):
+                    return struct.unpack("f", struct.pack("f", x))[0]
+                def nxt(x, up):
+                    b = struct.unpack("I", struct.pack("f", x))[0]
+                    b = b + 1 if (x > 0) == up else b - 1
+                    return struct.unpack("f", struct.pack("I", b))[0]
+                qmax = P["pq"] / 2
+                with open(os.path.join(wd, fn), "w") as fh:
+                    for cell in (-1.5, -1.0, -0.5, 0.0, 0.5, 1.0, n / 2.0, n - 1.5, n - 1.0, n - 0.5, n, n + 0.5):
+                        q = f32(qmax * (cell / n - 0.5))
+                        for v in (q, nxt(q, True) if q else 1e-45, nxt(q, False) if q else -1e-45):
+                            fh.write("%.9g %.9g\n" % (v, 0.0))
+                            fh.write("%.9g %.9g\n" % (0.0, v))
+                            fh.write("%.9g %.9g\n" % (v, v))
             elif k == "txt_outside":
                 with open(os.path.join(wd, fn), "w") as fh:
                     for q, p in ((1e9, 0), (-1e9, 1e9), (6, 6), (-6, -6), (5.999, -5.999), (float("nan"), 1), (1e39, -1e39)):
@@ -350,7 +368,7 @@ def run(ctx):
     ctx.rule = ("case = one run of the real program in the ASan/UBSan build (a sampled subset again under valgrind memcheck) from one of the generator classes: grid (size 4..300, orders, stencils, FP types, shifts up to n/3, padding 0.5..9, rounding), "
                 "buckets (2-6 buckets with empty ones, spacing from nearly touching upward with every fractional part, with/without rounding; a third touching with a spacing that rounds up to the next cell, 5-6 buckets, first and last occupied, no rounding of the padded length), rf (models x noise x modulation), kicks (1..13 steps per period: kicks beyond the grid), "
                 "impfile (exact/short/long/empty/missing/one column/text/NaN tokens/values at the edge of single precision/huge line numbers/duplicates/binary; half of them together with tracked particles), tracking (edge, outside, empty, malformed, many, missing), "
-                "startdist (.txt ok/empty/malformed/outside; .h5 same/smaller/larger/rank 2/rank 5/zero records/two and three bunches/non-square/garbage; unknown extension; every kind with one bunch current and, every third round, with 2-4 bucket currents; file kinds are cycled through, not sampled); distinct by option set and file kind")
+                "startdist (.txt ok/empty/malformed/outside/exactly on cell boundaries and half a cell outside the grid in single precision; .h5 same/smaller/larger/rank 2/rank 5/zero records/two and three bunches/non-square/garbage; unknown extension; every kind with one bunch current and, every third round, with 2-4 bucket currents; file kinds are cycled through, not sampled); distinct by option set and file kind")
     th = ctx.tier == "thorough"
     n = 6000 if th else 360
     nmem = 240 if th else 16
